@@ -2,6 +2,7 @@ import Op2Proofs.Prt.ReadFacts
 import Op2Proofs.Prt.WriteFacts
 import Op2Proofs.Prt.RoundTrip
 import Op2Proofs.Prt.Bytes
+import Op2Proofs.Prt.SpecEq
 /-!
 # C10 — PRT sprite metadata round-trips and always satisfies its cross-field rules
 -/
@@ -121,5 +122,67 @@ theorem C10_bytes_general (b : Bytes) (hs : List Bytes) (a : ArtFile) (rest : By
 /- "Writing never alters the in-memory object": `write : ArtFile → Except Err Bytes` is a function; its argument is a value,
    not a reference, so the clause has no content in the model.  It is checked on the real object (structural dump before
    = after `Write`, also after a refused `Write`) by the correspondence run only. -/
+
+/-- against the frozen, independently written format description: a well-formed structure is written as exactly
+    `Spec.encode`, and the reader accepts every spec-encoded file and returns the structure -/
+theorem C10_spec (a : ArtFile) (h : Spec.WF a) : write a = .ok (Spec.encode a) ∧ read (Spec.encode a) = .ok a := by
+  rw [spec_encode a h.1]
+  exact ⟨write_of h.1 h.2, (read_write a h.1 h.2).1⟩
+
+/-- the rules are stated in ℕ: for a 32-bit width the 64-bit machine formula of `ValidateImageMetadata` is the true
+    round-up, and no 32-bit scan-line width equals the round-up of a width above 2^32 − 4 (the wrap behind D23) -/
+theorem C10_roundup_exact (w : Nat) (hw : w < W32) : u64 (w + 3) / 4 * 4 = roundUp4 w ∧ (w > 4294967292 → ∀ s < W32, s ≠ roundUp4 w) := by
+  unfold u64 W64 roundUp4; unfold W32 at *
+  exact ⟨by omega, fun h s hs => by omega⟩
+
+/-! ## bridging lemmas: generated layout facts the model relies on -/
+theorem C10_gen_sizes : Gen.Layout.size_SectionHeader = 8 ∧ Gen.Layout.size_PaletteHeader = 28 ∧ Gen.Layout.size_Palette8Bit = 1024 ∧
+    Gen.Layout.size_Color = 4 ∧ Gen.Layout.size_ImageMeta = 20 ∧ Gen.Layout.size_Layer = 8 ∧ Gen.Layout.size_LayerMetadata = 1 ∧
+    Gen.Layout.size_UnknownContainer = 16 := by decide
+theorem C10_gen_imageMeta_offsets : [Gen.Layout.off_ImageMeta_scanLineByteWidth, Gen.Layout.off_ImageMeta_pixelDataOffset,
+    Gen.Layout.off_ImageMeta_height, Gen.Layout.off_ImageMeta_width, Gen.Layout.off_ImageMeta_type, Gen.Layout.off_ImageMeta_paletteIndex] =
+    [0, 4, 8, 12, 16, 18] := by decide
+theorem C10_gen_layer_offsets : [Gen.Layout.off_Layer_bitmapIndex, Gen.Layout.off_Layer_unknown, Gen.Layout.off_Layer_frameIndex,
+    Gen.Layout.off_Layer_pixelOffset] = [0, 2, 3, 4] := by decide
+theorem C10_gen_paletteHeader_offsets : [Gen.Layout.off_SectionHeader_length, Gen.Layout.off_PaletteHeader_sectionHeader,
+    Gen.Layout.off_PaletteHeader_remainingTagCount, Gen.Layout.off_PaletteHeader_dataHeader] = [4, 8, 16, 20] := by decide
+theorem C10_gen_color_order : [Gen.Layout.off_Color_red, Gen.Layout.off_Color_green, Gen.Layout.off_Color_blue, Gen.Layout.off_Color_alpha] =
+    [0, 1, 2, 3] := by decide
+/-- the header `PaletteHeader::CreatePaletteHeader()` builds in the current source is the model's canonical header, and it
+    passes the reader's validation -/
+theorem C10_gen_canonical_header : Gen.Layout.prt_canonicalPaletteHeader.map UInt8.ofNat = canonicalPaletteHeader ∧
+    paletteHeaderOk canonicalPaletteHeader = true := by decide
+theorem C10_gen_tag : Gen.Layout.prt_TagPalette.map UInt8.ofNat = tagCPAL := by decide
+theorem C10_gen_frame_bits : Gen.Layout.mask_LayerMetadata_count = 127 ∧ Gen.Layout.mask_LayerMetadata_bReadOptionalData = 128 := by decide
+
+/-! ## non-vacuity -/
+/-- one animation with two frames (both flag combinations that carry optional bytes), an unknown-container entry -/
+def exArt : ArtFile :=
+  ⟨[], [], [⟨1, 2, 3, 4, 5, 6, 7, 8,
+      [⟨⟨1, true⟩, ⟨5, false⟩, 9, 10, 0, 0, [⟨300, 1, 2, 65535, 4⟩]⟩, ⟨⟨0, false⟩, ⟨127, true⟩, 0, 0, 11, 12, []⟩],
+      [⟨1, 2, 3, 4294967295⟩]⟩], 77⟩
+
+def rtOk (a : ArtFile) : Bool :=
+  match write a with
+  | .ok w => (match read w with | .ok a' => decide (a' = a) && decide (consumed w = w.length) | .error _ => false)
+  | .error _ => false
+
+example : (write exArt).toOption.map List.length = some 100 := by decide
+example : rtOk exArt = true := by decide
+example : (write exArt).toOption = some (Spec.encode exArt) := by decide
+example : canonicalPaletteHeaders (Spec.encode exArt) := by
+  intro i hi
+  have : decU32 ((Spec.encode exArt).drop 4) = 0 := by decide
+  omega
+
+/-- the same structure with a count of 2 over a single layer: refused -/
+def exBad : ArtFile :=
+  ⟨[], [], [⟨1, 2, 3, 4, 5, 6, 7, 8, [⟨⟨2, true⟩, ⟨5, false⟩, 9, 10, 0, 0, [⟨300, 1, 2, 65535, 4⟩]⟩], []⟩], 0⟩
+example : (write exBad).toOption = none := by decide
+/-- width 0xFFFFFFFE with scan line 0 (accepted by the 32-bit formula before the repair) violates the rules -/
+example : ¬ rules ⟨[], [⟨0, 0, 0, 4294967294, 0, 0⟩], [], 0⟩ := by
+  intro h
+  have := (h.1 ⟨0, 0, 0, 4294967294, 0, 0⟩ (by simp)).1
+  simp at this
 
 end Op2.Prt
